@@ -91,7 +91,10 @@ def ev(e, params, x):
     if k == 'when':
         for c, v in e[1]:
             try:
-                r = _CMP[c[1]](ev(c[2], params, x), ev(c[3], params, x))
+                if c[0] == 'in':
+                    r = c[1] <= ev(c[3], params, x) <= c[2]
+                else:
+                    r = _CMP[c[1]](ev(c[2], params, x), ev(c[3], params, x))
             except Uneval:
                 continue          # a comparison that cannot be evaluated excludes nothing
             if r != v:
@@ -186,6 +189,11 @@ def _binom_pmf(p, k):
     return math.exp(math.lgamma(n + 1) - math.lgamma(k + 1) - math.lgamma(n - k + 1) + k * math.log(q) + (n - k) * math.log(1 - q))
 
 
+def _edge(on_edge, value):
+    """reference value at a point of the support's boundary whose membership differs between sources: 0 or the formula's value"""
+    return (0.0, value) if on_edge else value
+
+
 # distribution -> dict(fields=[names in struct order as used], grid=[param dicts], support x values (callable of params),
 #                      pdf/pmf, mean, var as python callables of (params, x) / (params))
 TABLE = {
@@ -195,23 +203,24 @@ TABLE = {
         pdf=lambda p, x: fexp(-0.5 * ((x - p['mu']) / p['sigma']) ** 2) / (p['sigma'] * math.sqrt(2 * math.pi)),
         mean=lambda p: p['mu'], var=lambda p: p['sigma'] ** 2),
     'gamma::Gamma': dict(
-        grid=[{'alpha': 0.7, 'beta': 1.9}, {'alpha': 2.3, 'beta': 0.45}, {'alpha': 5.1, 'beta': 3.2}, {'alpha': 2.0, 'beta': 1e3}],
-        xs=lambda p: [0.21, 1.37, 4.9, -0.8, 2.5e3],
-        pdf=lambda p, x: 0.0 if x < 0 else p['beta'] ** p['alpha'] / math.gamma(p['alpha']) * x ** (p['alpha'] - 1) * fexp(-p['beta'] * x),
+        grid=[{'alpha': 0.7, 'beta': 1.9}, {'alpha': 2.3, 'beta': 0.45}, {'alpha': 5.1, 'beta': 3.2}, {'alpha': 2.0, 'beta': 1e3}, {'alpha': 1.0, 'beta': 2.0}],
+        xs=lambda p: [0.21, 1.37, 4.9, -0.8, 2.5e3, 0.0],
+        # x = 0: the support is written (0, inf) or [0, inf) depending on the source; 0 and the limit of the formula are both accepted
+        pdf=lambda p, x: 0.0 if x < 0 else _edge(x == 0, p['beta'] ** p['alpha'] / math.gamma(p['alpha']) * fpow(x, p['alpha'] - 1) * fexp(-p['beta'] * x)),
         mean=lambda p: p['alpha'] / p['beta'], var=lambda p: p['alpha'] / p['beta'] ** 2),
     'exponential::Exponential': dict(
         grid=[{'lambda': 0.37}, {'lambda': 2.9}, {'lambda': 1e3}, {'lambda': 1e-3}],
-        xs=lambda p: [0.13, 1.1, 3.7, -0.4, 5e3],
+        xs=lambda p: [0.13, 1.1, 3.7, -0.4, 5e3, 0.0],
         pdf=lambda p, x: 0.0 if x < 0 else p['lambda'] * fexp(-p['lambda'] * x),
         mean=lambda p: 1 / p['lambda'], var=lambda p: 1 / p['lambda'] ** 2),
     'uniform::Uniform': dict(
         grid=[{'lower': -1.3, 'upper': 2.9}, {'lower': 0.4, 'upper': 0.95}],
-        xs=lambda p: [p['lower'] + 0.31 * (p['upper'] - p['lower']), p['lower'] + 0.77 * (p['upper'] - p['lower']), p['lower'] - 0.5, p['upper'] + 1e3],
+        xs=lambda p: [p['lower'] + 0.31 * (p['upper'] - p['lower']), p['lower'] + 0.77 * (p['upper'] - p['lower']), p['lower'] - 0.5, p['upper'] + 1e3, p['lower'], p['upper']],
         pdf=lambda p, x: 1 / (p['upper'] - p['lower']) if p['lower'] <= x <= p['upper'] else 0.0,
         mean=lambda p: (p['lower'] + p['upper']) / 2, var=lambda p: (p['upper'] - p['lower']) ** 2 / 12),
     'pareto::Pareto': dict(
         grid=[{'alpha': 2.7, 'minval': 1.3}, {'alpha': 4.2, 'minval': 0.6}, {'alpha': 1.5, 'minval': 2.0}, {'alpha': 2.0, 'minval': 1.0}],
-        xs=lambda p: [p['minval'] * 1.1, p['minval'] * 2.3, p['minval'] * 7.9, p['minval'] * 0.5, -1.0, p['minval'] * 1e6],
+        xs=lambda p: [p['minval'] * 1.1, p['minval'] * 2.3, p['minval'] * 7.9, p['minval'] * 0.5, -1.0, p['minval'] * 1e6, p['minval']],
         pdf=lambda p, x: p['alpha'] * p['minval'] ** p['alpha'] / x ** (p['alpha'] + 1) if x >= p['minval'] else 0.0,
         # the property constrains a moment only where it is finite: None = no constraint at this parameter point
         mean=lambda p: p['alpha'] * p['minval'] / (p['alpha'] - 1) if p['alpha'] > 1 else None,
@@ -222,15 +231,15 @@ TABLE = {
         pdf=lambda p, x: fexp(-((x - p['mu']) / p['beta'] + fexp(-(x - p['mu']) / p['beta']))) / p['beta'],
         mean=lambda p: p['mu'] + p['beta'] * EULER, var=lambda p: math.pi ** 2 / 6 * p['beta'] ** 2),
     'beta::Beta': dict(
-        grid=[{'alpha': 0.6, 'beta': 2.4}, {'alpha': 3.1, 'beta': 1.7}],
-        xs=lambda p: [0.13, 0.52, 0.91, -0.3, 1.7],
-        pdf=lambda p, x: x ** (p['alpha'] - 1) * (1 - x) ** (p['beta'] - 1) * math.gamma(p['alpha'] + p['beta']) / (math.gamma(p['alpha']) * math.gamma(p['beta'])) if 0 <= x <= 1 else 0.0,
+        grid=[{'alpha': 0.6, 'beta': 2.4}, {'alpha': 3.1, 'beta': 1.7}, {'alpha': 1.0, 'beta': 2.5}, {'alpha': 2.0, 'beta': 1.0}, {'alpha': 1.0, 'beta': 1.0}],
+        xs=lambda p: [0.13, 0.52, 0.91, -0.3, 1.7, 0.0, 1.0],
+        pdf=lambda p, x: _edge(x in (0.0, 1.0), fpow(x, p['alpha'] - 1) * fpow(1 - x, p['beta'] - 1) * math.gamma(p['alpha'] + p['beta']) / (math.gamma(p['alpha']) * math.gamma(p['beta']))) if 0 <= x <= 1 else 0.0,
         mean=lambda p: p['alpha'] / (p['alpha'] + p['beta']),
         var=lambda p: p['alpha'] * p['beta'] / ((p['alpha'] + p['beta']) ** 2 * (p['alpha'] + p['beta'] + 1))),
     'chi_squared::ChiSquared': dict(
-        grid=[{'dof': 1}, {'dof': 4}, {'dof': 7}],
-        xs=lambda p: [0.37, 2.1, 8.3, -1.5, 4e3],
-        pdf=lambda p, x: x ** (p['dof'] / 2 - 1) * fexp(-x / 2) / (2 ** (p['dof'] / 2) * math.gamma(p['dof'] / 2)) if x >= 0 else 0.0,
+        grid=[{'dof': 1}, {'dof': 4}, {'dof': 7}, {'dof': 2}],
+        xs=lambda p: [0.37, 2.1, 8.3, -1.5, 4e3, 0.0],
+        pdf=lambda p, x: _edge(x == 0, fpow(x, p['dof'] / 2 - 1) * fexp(-x / 2) / (2 ** (p['dof'] / 2) * math.gamma(p['dof'] / 2))) if x >= 0 else 0.0,
         mean=lambda p: float(p['dof']), var=lambda p: 2.0 * p['dof']),
     't::T': dict(
         grid=[{'dof': 3.0}, {'dof': 7.5}, {'dof': 2.6}, {'dof': 1.5}],
@@ -284,9 +293,11 @@ def compare(alts, ref, points, trivial_ok=True):
                 continue
             except Uneval as e:
                 uneval = str(e)
-        if any(close(float(v), float(want)) for _, v in vals):
+        wants = want if isinstance(want, tuple) else (want,)      # a boundary point may have two accepted values (open or closed support)
+        if any(close(float(v), float(w)) for _, v in vals for w in wants):
             n += 1
             continue
+        want = wants[-1]
         if uneval is not None:
             undecided = undecided or 'an alternative is not evaluable (%s)' % uneval
             continue
